@@ -15,6 +15,15 @@ CHECKS = {
              "stream is parsed back by the same TLA+ parser inside TLC; canonical trees must agree. Exhaustive within the bound, "
              "which is the level the property (a product over operator triples) needs.",
         ref="6/C06", technique="TLA+ reference parser (PT_Expr) + TLC enumeration of trees + trace judging of real renderings (J_C06)"),
+    "C01": dict(
+        text="PT_Sharing models the @builder protocol as a heap (shallow copy shares or re-copies each container attribute; a method body "
+             "rebinds, appends in place, or mutates a shared element). TLC proves Frozen for the intended sharing tables, explores the model "
+             "with the tables MEASURED on the live code (predicting violating histories), and the same run enumerates every call tree (any live "
+             "object as receiver) of <=2 calls over all ~50 labels of each of 85 scenarios (class x seed state x dialect builder), 3 calls over labels "
+             "with an observed in-place effect. Every tree is executed on the real library with all live objects observed after each step; "
+             "J_Frozen (TLC) checks each recorded execution against the protocol. Coverage of the package's @builder methods is measured by "
+             "introspection (a method without a label is a machinery failure).",
+        ref="6/C01", technique="TLA+ heap model of copy/effect sharing (PT_Sharing) explored by TLC with measured tables; call trees replayed on the code; TLC trace judge (J_Frozen)"),
     "C05": dict(
         text="TLC proves on the specification that the intended string/identifier encoders round-trip through the reference lexer of every "
              "dialect, stand-alone and embedded, for all strings over a 20-class adversarial alphabet up to length 2 (quick) / 3 (thorough). "
